@@ -1408,9 +1408,13 @@ func marshalDate(info TypeInfo, value interface{}) ([]byte, error) {
 }
 
 func unmarshalDate(info TypeInfo, data []byte, value interface{}) error {
-	switch v := value.(type) {
-	case Unmarshaler:
+	if v, ok := value.(Unmarshaler); ok {
 		return v.UnmarshalCQL(info, data)
+	}
+	if len(data) != 0 && len(data) != 4 {
+		return unmarshalErrorf("unmarshal date: the length of the data should be 0 or 4 bytes, got %d", len(data))
+	}
+	switch v := value.(type) {
 	case *time.Time:
 		if len(data) == 0 {
 			*v = time.Time{}
